@@ -582,6 +582,7 @@ func runOldState(c *StateCase) (tr trace) {
 				return fmt.Errorf("block %d: root after reopen %s differs from root computed by Update %s", n, again.String(), newRoot.String())
 			}
 			tr.Roots = append(tr.Roots, feltHex(&newRoot))
+			tr.Fields = append(tr.Fields, legacyFields(disk))
 			prev = newRoot
 			lastVer = b.Version
 		}
@@ -594,6 +595,56 @@ func runOldState(c *StateCase) (tr trace) {
 		}
 	}
 	return tr
+}
+
+// legacyFields: the per-field contract buckets of core/deprecatedstate, `addr:class:nonce` ("-" = no nonce entry)
+func legacyFields(disk *memory.Database) []string {
+	it, err := disk.NewIterator(db.ContractClassHash.Key(), true)
+	if err != nil {
+		return []string{"error: " + err.Error()}
+	}
+	defer it.Close()
+	type ent struct {
+		addr felt.Felt
+		s    string
+	}
+	var es []ent
+	for ok := it.First(); ok; ok = it.Next() {
+		k := it.Key()
+		v, _ := it.Value()
+		if len(k) != 1+felt.Bytes {
+			continue
+		}
+		addr := felt.FromBytes[felt.Felt](k[1:])
+		cls := felt.FromBytes[felt.Felt](v)
+		nonce := "-"
+		_ = disk.Get(db.ContractNonceKey(&addr), func(nv []byte) error {
+			n := felt.FromBytes[felt.Felt](nv)
+			nonce = feltHex(&n)
+			return nil
+		})
+		es = append(es, ent{addr, feltHex(&addr) + ":" + feltHex(&cls) + ":" + nonce})
+	}
+	sort.Slice(es, func(i, j int) bool { return es[i].addr.Cmp(&es[j].addr) < 0 })
+	out := make([]string, len(es))
+	for i := range es {
+		out[i] = es[i].s
+	}
+	return out
+}
+
+// model script for the TRANSCRIBED legacy state (ModelLegacyState.lean)
+func legacyStateModelLines(c *StateCase, id int, purge bool) (lines []string, blockIdx []int) {
+	p := 0
+	if purge {
+		p = 1
+	}
+	lines = []string{fmt.Sprintf("ynew %d %d", id, p)}
+	for n := range c.Blocks {
+		blockIdx = append(blockIdx, len(lines))
+		lines = append(lines, diffLine("yblock", id, &c.Blocks[n]))
+	}
+	return lines, blockIdx
 }
 
 func hasMigration(c *StateCase) bool {
@@ -1587,8 +1638,8 @@ func checkStateCases(f lib.Flags, res *lib.Result, drv *lib.Driver, cases []*Sta
 	// round 4: further models of the same histories — (a) the state model on tries reopened from the node
 	// database for every block, (b) what the node stores per block through Finalise, (c) through Store
 	type xoff struct {
-		l, fN, fO, sN, sO         int   // offsets into xans (-1 = not asked)
-		lIdx, fNi, fOi, sNi, sOi []int // line index of every block
+		l, fN, fO, sN, sO, y          int   // offsets into xans (-1 = not asked)
+		lIdx, fNi, fOi, sNi, sOi, yi []int // line index of every block
 	}
 	xo := make([]xoff, len(cases))
 	var xans []string
@@ -1596,7 +1647,7 @@ func checkStateCases(f lib.Flags, res *lib.Result, drv *lib.Driver, cases []*Sta
 		var all []string
 		for i, c := range cases {
 			o := &outs[i]
-			x := xoff{l: -1, fN: -1, fO: -1, sN: -1, sO: -1}
+			x := xoff{l: -1, fN: -1, fO: -1, sN: -1, sO: -1, y: -1}
 			add := func(off *int, idx *[]int, ls []string, ix []int) {
 				*off = len(all)
 				*idx = ix
@@ -1605,6 +1656,10 @@ func checkStateCases(f lib.Flags, res *lib.Result, drv *lib.Driver, cases []*Sta
 			if o.nw.Err == "" {
 				ls, ix := stateLModelLines(c, 0)
 				add(&x.l, &x.lIdx, ls, ix)
+			}
+			if o.old.Err == "" {
+				ls, ix := legacyStateModelLines(c, 0, legacyPurgeVariant)
+				add(&x.y, &x.yi, ls, ix)
 			}
 			if o.chN != nil && o.chN.Err == "" {
 				ls, ix := chainFinModelLines(c, 0, finaliseFixedVariant[0], true)
@@ -1665,6 +1720,35 @@ func checkStateCases(f lib.Flags, res *lib.Result, drv *lib.Driver, cases []*Sta
 				}
 			}
 			res.Hit("state:model-on-reopened-tries")
+		}
+		if x.y >= 0 {
+			// the transcription of core/deprecatedstate: root and the two per-field buckets after every block
+			for n := range c.Blocks {
+				a := xans[x.y+x.yi[n]]
+				res.Compared(2)
+				fs := strings.Fields(a)
+				if len(fs) == 0 || a == "rejected" {
+					res.Mismatch(lib.Mismatch{Sig: "deprecatedstate-transcription-rejects", Input: c, Model: fmt.Sprintf("block %d: %s", n, clip(a)), Impl: at(o.old.Roots, n)})
+					break
+				}
+				v, err := evalTerm(fs[0])
+				if err != nil || feltHex(&v) != at(o.old.Roots, n) {
+					res.Mismatch(lib.Mismatch{Sig: "deprecatedstate-transcription-root", Input: c, Model: fmt.Sprintf("block %d: %s", n, clip(fs[0])), Impl: at(o.old.Roots, n)})
+					break
+				}
+				var model []string
+				for _, f := range fs[1:] {
+					model = append(model, strings.TrimPrefix(f, "F:"))
+				}
+				if n < len(o.old.Fields) {
+					if d := compareSet(model, o.old.Fields[n]); d != "" {
+						res.Mismatch(lib.Mismatch{Sig: "deprecatedstate-contract-field-buckets", Input: c, Model: fmt.Sprintf("block %d: %s", n, d)})
+						break
+					}
+					res.HitN("store-diff:legacy-contract-field-entries-compared", len(model))
+				}
+			}
+			res.Hit("state:deprecatedstate-transcription")
 		}
 		for _, ch := range []struct {
 			off int
